@@ -133,6 +133,7 @@ func watchForwarderReleaseRule(c *Ctx, rule string) {
 		}
 		// channels (fields of the type) closed by Stop
 		closed := map[string]bool{}
+		closeAt := map[string][]*ssa.Call{}
 		for _, g := range m.reachWithFuncArgs(stop) {
 			eachInstr(g, func(in ssa.Instruction) {
 				call, ok := in.(*ssa.Call)
@@ -140,9 +141,48 @@ func watchForwarderReleaseRule(c *Ctx, rule string) {
 					return
 				}
 				if b, isB := call.Call.Value.(*ssa.Builtin); isB && b.Name() == "close" && len(call.Call.Args) == 1 {
-					closed[m.Sym.Of(m.traceValue(call.Call.Args[0])).String()] = true
+					ch := m.Sym.Of(m.traceValue(call.Call.Args[0])).String()
+					closed[ch] = true
+					closeAt[ch] = append(closeAt[ch], call)
 				}
 			})
+		}
+		// ... on every path of Stop: a close that depends on anything but the channel itself (the
+		// outcome of the unsubscribe, say) leaves the goroutine behind exactly when that fails
+		for _, ch := range keysOf(closed) {
+			for _, cl := range closeAt[ch] {
+				var conds []string
+				var at ssa.Instruction = cl
+				for depth := 0; at != nil && depth < 4; depth++ {
+					for _, l := range m.controlConds(at) {
+						if !strings.Contains(l.S.String(), strings.TrimPrefix(ch, "&")) {
+							conds = append(conds, l.S.String())
+						}
+					}
+					g := at.Parent()
+					if g == stop {
+						break
+					}
+					at = nil
+					if par := g.Parent(); par != nil {
+						eachInstr(par, func(in ssa.Instruction) {
+							if ci, ok := in.(ssa.CallInstruction); ok && at == nil {
+								for _, a := range ci.Common().Args {
+									if mc, ok := m.traceValue(a).(*ssa.MakeClosure); ok && mc.Fn == g {
+										at = in
+									} else if fn, ok := m.traceValue(a).(*ssa.Function); ok && fn == g {
+										at = in
+									}
+								}
+							}
+						})
+					} else if sites := m.callers[g]; len(sites) == 1 {
+						at = sites[0].Instr
+					}
+				}
+				c.check(len(conds) == 0, rule, fmt.Sprintf("%s.Stop closes %s unconditionally", n.Obj().Name(), strings.TrimPrefix(ch, "&")), cl,
+					"conditions (other than tests of the channel itself) that decide whether the close executes: %v (when the close is skipped the forwarding goroutine blocked in its send is never released)", conds)
+			}
 		}
 		nSend := 0
 		for _, g := range m.reachWithFuncArgs(up) {
